@@ -36,12 +36,16 @@ class _LoadAndSave:
     customize the behavior if needed (for instance, to introduce additional locks).
     """
 
-    def __init__(self, collection):
+    def __init__(self, collection, load=True):
         self._collection = collection
+        # Destructive operations (clear, reset at the root) need the locks and
+        # the save, but not the load.
+        self._load = load
 
     def __enter__(self):
         self._collection._thread_lock.__enter__()
-        self._collection._load()
+        if self._load:
+            self._collection._load()
 
     def __exit__(self, exc_type, exc_val, exc_tb):
         try:
